@@ -23,6 +23,9 @@ func (m *Machine) lookupIntercept(fn *ssa.Function) intercept {
 	if m.realBig() && fn.Pkg != nil && fn.Pkg.Pkg.Path() == "math/big" {
 		return nil // real mode: the pure-Go math/big code is interpreted
 	}
+	if m.cfg.Params["crypto_model"] == 1 && fn.Pkg != nil && fn.Pkg.Pkg.Path() == repoMod+"/request" && fn.Name() == "Verify" && fn.Signature.Recv() == nil {
+		return nil // the real request.Verify runs over the idealised crypto model instead of the signing oracle
+	}
 	if v, ok := icCache.Load(fn); ok {
 		if ic, ok := v.(intercept); ok {
 			return ic
